@@ -131,11 +131,11 @@ def bdays(start, end, calendar_days=False):
     return out
 
 
-def roll_setup(name, year, rolls):
+def roll_setup(name, year, rolls, month=0):
     """chain and the window of days covering `rolls` roll(s) of the given class"""
     cls = getattr(K, name)
     reset_clock()
-    chain = FutureChain(cls, datetime(year, 1, 1), datetime(year + 1, 6, 30))
+    chain = FutureChain(cls, datetime(year, 1, 1), datetime(year + 1, 6, 30), month=month)
     cs = chain.contracts
     first = 1 if name == "VX" else 0
     c0 = cs[first]
@@ -145,16 +145,19 @@ def roll_setup(name, year, rolls):
     return chain, start, end
 
 
-def run_roll(name, year, rolls, stride, phase, script, spread, threshold, calendar_days):
-    chain, start, end = roll_setup(name, year, rolls)
+def run_roll(name, year, rolls, stride, phase, script, spread, threshold, calendar_days, month=0):
+    chain, start, end = roll_setup(name, year, rolls, month)
     days_ = bdays(start, end, calendar_days)[phase::stride]
     cs = chain.contracts
     mult = cs[0].multiplier
     msgs = []
     # proviso of the statement: for every contract whose last-trading date falls inside the episode there must be
     # a step in [last trading, expiry) that is followed by another step
-    for c in cs:
+    for ci, c in enumerate(cs):
         ltd, exp = as_dt(c.last_trading_date), as_dt(c.expiry)
+        if month and ci - month >= 0:
+            # with a month offset the contract stops being the resolved one when the FRONT contract rolls
+            ltd = as_dt(cs[ci - month].last_trading_date)
         if days_[0] < ltd <= days_[-1]:
             inside = [i for i, g in enumerate(days_) if ltd <= g < exp and i + 1 < len(days_)]
             if not inside:
@@ -184,7 +187,7 @@ def run_roll(name, year, rolls, stride, phase, script, spread, threshold, calend
         kind = ACTION_KINDS[script[(k - 1) % len(script)]]
         w = {"+w": w0, "-w": -w0, "0": 0.0, "w+": w0 + 0.02}[kind]
         D = days_[k - 1]
-        lead = ref_lead(cs, D, 0)
+        lead = ref_lead(cs, D, month)
         try:
             o, r, done, info = env.step(np.array([w]))
         except Exception as e:
@@ -235,7 +238,9 @@ def roll_cases(tier):
                     for spread in (0.0, 0.002):
                         for threshold in (0.0, 0.05):
                             for script in scripts:
-                                out.append((name, year, rolls, stride, phase, script, spread, threshold, calendar_days))
+                                out.append((name, year, rolls, stride, phase, script, spread, threshold, calendar_days, 0))
+                                if name == "ES" and stride in (1, 3) and spread and threshold == 0.0:
+                                    out.append((name, year, rolls, stride, phase, script, spread, threshold, calendar_days, 1))
     return out
 
 
@@ -295,7 +300,7 @@ def replay(case, **kw):
         msgs, _ = check_lead(case["cls"], datetime(case["year"], 1, 1), datetime(case["year"] + case["span"] - 1, 12, 31), case["offset"])
         return msgs
     c = case["case"]
-    msgs, _ = run_roll(c[0], c[1], c[2], c[3], c[4], tuple(c[5]), c[6], c[7], c[8])
+    msgs, _ = run_roll(c[0], c[1], c[2], c[3], c[4], tuple(c[5]), c[6], c[7], c[8], c[9] if len(c) > 9 else 0)
     return msgs or []
 
 
